@@ -247,7 +247,65 @@ fn fixed_entry(run: &Run, lo: &Fixed, st: &mut Stats, name: &str, emojis: &[Stri
     Ok(())
 }
 
+#[allow(clippy::too_many_arguments)]
+fn after_commit_one(ctx: &Ctx, name: &str, phonetic: bool, prev: &str, cur: &str, emo: &str, only: Option<usize>, st: &mut Stats) -> Result<(), Failure> {
+    let mut j = only.unwrap_or(0);
+    loop {
+        let case = || json!({"after_commit": {"context": name, "previous": prev, "committed_index": j, "emoticon": cur}});
+        let pf = |p: crate::driver::PanicInfo| Failure::new(panic_kind(&p), p.to_string(), case());
+        ctx.finish().map_err(pf)?;
+        let Some(l) = ctx.type_frontend(prev).map_err(pf)? else { break };
+        if l.lonely || j >= l.cands.len() {
+            ctx.finish().map_err(pf)?;
+            break;
+        }
+        ctx.commit(j).map_err(pf)?;
+        let r = ctx.type_text(cur).map_err(pf)?.unwrap();
+        ctx.finish().map_err(pf)?;
+        st.evals(1);
+        if j != l.sel {
+            st.label("emoticon-typed-after-a-non-preselected-commit");
+        }
+        if r.lonely || !r.cands.iter().any(|c| c == emo) {
+            return Err(Failure::new("emoji-missing", format!("{name}: {prev:?} typed and candidate {j} of {:?} committed, then {cur:?} typed: its emoji {emo:?} is not offered; got {}", l.cands, r.short()), case()));
+        }
+        if phonetic && !r.cands.iter().any(|c| c == cur) {
+            return Err(Failure::new("emoticon-literal-missing", format!("{name}: after committing candidate {j} of {prev:?}, typing {cur:?}: the literal text is not a candidate; got {}", r.short()), case()));
+        }
+        if only.is_some() {
+            break;
+        }
+        j += 1;
+    }
+    Ok(())
+}
+
+/// A word is also ended by committing one of its candidates.  Every emoticon (phonetic: plain and English context;
+/// Probhat with suggestions) is typed right after the previous table entry was committed at EACH of its candidate
+/// indices in turn - no finish request in between - and must still offer its emoji (phonetic: and its literal text).
+fn after_commit(run: &Run) {
+    let e = emoji();
+    let emoticons: Vec<(String, String)> = e.emoticons.iter().filter(|(k, _)| typeable(k)).cloned().collect();
+    let n = emoticons.len();
+    let items: Vec<usize> = (0..n).collect();
+    run.exhaustive(
+        "emoticon-after-each-candidate-of-the-previous-one-was-committed",
+        &items,
+        |_| (mk_phon(), mk_fixed(Layout::Probhat, false)),
+        |&i, st, (ph, fx)| {
+            let (prev, _) = &emoticons[(i + n - 1) % n];
+            let (cur, emo) = &emoticons[i];
+            for (ctx, name, phonetic) in [(&ph.plain, "phonetic", true), (&ph.english, "phonetic+English", true), (&fx.plain, "Probhat", false), (&fx.english, "Probhat+English", false)] {
+                after_commit_one(ctx, name, phonetic, prev, cur, emo, None, st)?;
+            }
+            Ok(())
+        },
+    );
+    run.require_label("emoticon-typed-after-a-non-preselected-commit", 100);
+}
+
 pub fn run(run: &Run) {
+    after_commit(run);
     let e = emoji();
     // phonetic: emoticons
     let mut untypeable: Vec<String> = vec![];
@@ -292,6 +350,19 @@ pub fn run(run: &Run) {
 
 pub fn replay(run: &Run, case: &Value) -> Result<(), Failure> {
     let e = emoji();
+    if let Some(ac) = case.get("after_commit") {
+        let g = |k: &str| ac[k].as_str().unwrap_or_default().to_string();
+        let (name, prev, cur) = (g("context"), g("previous"), g("emoticon"));
+        let emo = e.emoticon_map.get(&cur).cloned().unwrap_or_default();
+        let (ph, fx) = (mk_phon(), mk_fixed(Layout::Probhat, false));
+        let (ctx, phonetic) = match name.as_str() {
+            "phonetic" => (&ph.plain, true),
+            "phonetic+English" => (&ph.english, true),
+            "Probhat" => (&fx.plain, false),
+            _ => (&fx.english, false),
+        };
+        return after_commit_one(ctx, &name, phonetic, &prev, &cur, &emo, Some(ac["committed_index"].as_u64().unwrap_or(0) as usize), &mut Stats::new());
+    }
     let name = case["entry"].as_str().unwrap_or_default();
     let is_emoticon = case["emoticon"].as_bool().unwrap_or(false);
     let wrap = (case["wrap"][0].as_str().unwrap_or_default(), case["wrap"][1].as_str().unwrap_or_default());
